@@ -80,27 +80,8 @@ POOL.update({15 + i: t for i, t in enumerate(EXTRA)})
 POOL_ID = {tkey(t): i for i, t in POOL.items()}
 assert len(POOL_ID) == len(POOL)
 FALSY = {5, 6, 7, 14}
-assert {i for i, t in POOL.items() if not bool(t)} == FALSY, "falsy_ids of coq/Remote/Model.v is out of date"
+assert {i for i, t in POOL.items() if not bool(t)} == FALSY, "the falsy terms of the pool have changed (falsy_ids in Model.v)"
 
-
-
-def _resub_table():
-    """what where_pattern.sub("WHERE { " + values, ...) makes of each pool term used as an initBinding"""
-    import re
-
-    out = {}
-    for i, t in sorted(POOL.items()):
-        src = t.n3()
-        new = re.compile("X").sub(src, "X")  # a re.error here would be a third behaviour: none of the pool terms has it
-        if new == src:
-            continue
-        g = Graph()
-        try:
-            g.update("INSERT DATA { <x:a> <x:p> %s }" % new)
-            out[i] = term_id(next(iter(g.objects())))
-        except Exception:  # noqa: BLE001
-            out[i] = None
-    return out
 
 
 SUBJ = [1, 2, 12]
@@ -117,10 +98,6 @@ def term(i):
 
 def term_id(t):
     return POOL_ID.get(tkey(t), 999)
-
-
-RESUB = _resub_table()
-assert RESUB == {19: None, 21: None, 27: 28}, f"resub_table of coq/Remote/Model.v is out of date: {RESUB}"
 
 
 def ident(g):
@@ -406,8 +383,6 @@ class C20(Suite):
     imports = "From RV Require Import Remote.Model.\nSet Printing Width 100000."
     case_ty = "case"
     obs_ty = "list step_obs"
-    kf = "kf"
-    kf_ids = {1: "F13a", 2: "F13b", 3: "F13c", 4: "F13d"}
     corr = ("SPARQLStore.triples/__len__/contexts/query/_is_contextual, SPARQLUpdateStore.add/addN/remove/update/add_graph/"
             "remove_graph/commit/rollback/_transaction, SPARQLConnector.query/update")
     quick_n = 500
@@ -448,11 +423,7 @@ class C20(Suite):
         names = sorted({q[3] for q in init if q[3] != 0})
         if rng.random() < 0.2:
             names = sorted(set(names) | {rng.choice(named)})
-        # keep the known-finding regions a minority so that most histories are checked in full
-        allow_default_iri = alias or rng.random() < 0.25
-        allow_falsy_ctx = rng.random() < 0.2
-        allow_bad = rng.random() < 0.12
-        allow_resub = rng.random() < 0.25
+        allow_bad = rng.random() < 0.3
 
         def ctx(allow_none=True):
             r = rng.random()
@@ -470,10 +441,19 @@ class C20(Suite):
             return rng.choice(ks)
 
         ops = []
+        last_c = None
         n = rng.choice([2, 3, 4, 5, 6, 8, 10, 12])
         for _ in range(n):
             r = rng.random()
             t = rng.choice(pool)
+            if rng.random() < 0.08:
+                # the same write twice with the opposing write in between (the queue must replay all three in order)
+                c = ctx()
+                a = ["add", t, c, via(c)]
+                b = ["rem", list(t), c, via(c)]
+                ops.extend([list(x) for x in rng.choice([[a, b, a], [b, a, b], [a, b, a, b]])])
+                last_c = 0 if c is None else c
+                continue
             if r < 0.20:
                 c = ctx()
                 ops.append(["add", t, c, via(c)])
@@ -481,10 +461,7 @@ class C20(Suite):
                 k = rng.choice([0, 1, 2, 3, 4])
                 qs = []
                 for _ in range(k):
-                    g = rng.choice(gids)
-                    if g == 0 and not allow_default_iri:
-                        g = rng.choice(named)
-                    qs.append(rng.choice(pool) + [g])
+                    qs.append(rng.choice(pool) + [rng.choice(gids)])
                 ops.append(["addN", qs, rng.choice(["store", "dataset"])])
             elif r < 0.40:
                 c = ctx()
@@ -497,12 +474,8 @@ class C20(Suite):
                 ops.append(["remg", g, rng.choice(["store", "dataset"])])
             elif r < 0.57:
                 c = ctx()
-                if c == 0 and not allow_default_iri:
-                    c = None
                 kind = rng.choice(["ins", "deld", "delw", "delb"])
                 arg = pat(t) if kind in ("delw", "delb") else t
-                if kind == "delb" and not allow_resub and any(x in RESUB for x in arg if x is not None):
-                    kind = "delw"
                 ops.append(["upd", kind, arg, c, via(c, ("store", "graph")), rng.choice([0, 1])])
             elif r < 0.59 and allow_bad:
                 ops.append(["bad"])
@@ -526,26 +499,28 @@ class C20(Suite):
                     tr = None
                 else:
                     tr = list(t)
-                    if not allow_falsy_ctx and tr[2] in FALSY:
-                        cands = [x for x in pool if x[2] not in FALSY]
-                        tr = list(rng.choice(cands)) if cands else None
                 ops.append(["contexts", tr, rng.choice(["store", "dataset"]) if alias else "store"])
             else:
                 c = ctx()
-                if c == 0 and not allow_default_iri:
-                    c = None
                 ops.append(["query", rng.choice([0, 1, 2]), pat(t), c, via(c, ("store", "graph"))])
         if rng.random() < 0.7:
-            ops.append(["triples", [None, None, None], rng.choice(gids), "store"])
-        return {"alias": alias, "method": method, "fmt": fmt, "auto": auto, "dirty": dirty,
+            ops.append(["triples", [None, None, None], last_c if last_c is not None else rng.choice(gids), "store"])
+        # extra request parameters / headers given at construction (SPARQLConnector kwargs), or none
+        kw = rng.choice([0, 0, 1, 2, 3])
+        return {"alias": alias, "method": method, "fmt": fmt, "auto": auto, "dirty": dirty, "kw": kw,
                 "init": init, "names": names, "ops": ops}
 
     # ------------------------------------------------------------ implementation
     def run_impl(self, case):
         ep = endpoint()
         ep.reset(case["alias"], case["init"], case["names"])
+        kw = {}
+        if case.get("kw", 0) & 1:
+            kw["params"] = {"x-tenant": "t 1&2"}
+        if case.get("kw", 0) & 2:
+            kw["headers"] = {"X-Probe": "1"}
         st = SPARQLUpdateStore(ep.url, ep.url, returnFormat=case["fmt"], method=case["method"],
-                               autocommit=case["auto"], dirty_reads=case["dirty"])
+                               autocommit=case["auto"], dirty_reads=case["dirty"], **kw)
         dsc = Dataset(store=st)
 
         def ctx_obj(c):
@@ -787,7 +762,8 @@ class C20(Suite):
     def features(self, case, obs):
         f = {"ops_total": len(case["ops"]), "method_" + case["method"]: 1, "fmt_" + case["fmt"]: 1,
              "endpoint_" + ("dataset" if case["alias"] else "generic"): 1,
-             "autocommit_" + str(case["auto"]).lower(): 1, "dirty_reads_" + str(case["dirty"]).lower(): 1}
+             "autocommit_" + str(case["auto"]).lower(): 1, "dirty_reads_" + str(case["dirty"]).lower(): 1,
+             "ctor_kwargs_%d" % case.get("kw", 0): 1}
         for o in case["ops"]:
             k = o[0]
             f["op_" + k] = f.get("op_" + k, 0) + 1
@@ -826,18 +802,17 @@ class C20(Suite):
                         for sh in shapes:
                             ops.append(["triples", [x if m else None for x, m in zip(t, sh)], g, "store"])
                         ops.append(["len", g, "store"])
-                        if o not in FALSY:
-                            ops.append(["contexts", t, "store"])
+                        ops.append(["contexts", t, "store"])
                         ops.append(["query", 0, [None, None, o], None if g == 0 else g, "store"])
                         ops.append(["query", 1, [1, None, None], None if g == 0 else g, "store"])
-                        ops.append(["upd", "delb" if o not in RESUB else "delw", [None, 3, o], None if g == 0 else g, "store", 0])
+                        ops.append(["upd", "delb", [None, 3, o], None if g == 0 else g, "store", 0])
                         ops.append(["rem", [None, None, o], g, "store"])
                         ops.append(["triples", [None, None, None], g, "store"])
-                        yield {"alias": True, "method": method, "fmt": fmt, "auto": False, "dirty": False,
+                        yield {"alias": True, "method": method, "fmt": fmt, "auto": False, "dirty": False, "kw": o % 4,
                                "init": [], "names": [], "ops": ops}
         # the queue: all histories of length 3 over a small alphabet, autocommit off, both dirty settings
         import itertools
-        alpha = [["add", [1, 3, 10], 1, "store"], ["rem", [1, None, None], 1, "store"], ["commit", "store"],
+        alpha = [["add", [1, 3, 10], 1, "store"], ["rem", [1, 3, 10], 1, "store"], ["commit", "store"],
                  ["rollback", "store"], ["triples", [None, None, None], 1, "store"], ["auto", True], ["dirty", False],
                  ["addN", [[2, 3, 10, 1], [2, 3, 10, 2]], "store"]]
         for seq in itertools.product(alpha, repeat=3):
